@@ -88,6 +88,7 @@ type State struct {
 	errs     []errRec
 	ghosts   map[string]Term
 	ghostBound map[string]bool
+	callCount  map[string]int
 	facts    map[string]bool
 	defs     map[string]string
 	local    map[string]bool     // fresh objects of this activation that have not escaped yet
